@@ -6,7 +6,7 @@ set -u
 D="$1"; shift
 WT=${MUTWT:-/tmp/mutrun}
 if [ ! -d $WT ]; then git -C /repo worktree add -q $WT HEAD; fi
-cd $WT && git checkout -q -- . && git clean -fdq -e target && git checkout -q --detach "$(git -C /repo rev-parse HEAD)"
+cd $WT && git checkout -q -- . && git clean -fdq -e target && git checkout -q --detach "${MUTBASE:-$(git -C /repo rev-parse HEAD)}"
 export CARGO_TARGET_DIR=$WT/target CARGO_NET_OFFLINE=true
 DEMO=""
 [ -f "$D/demo_test.rs" ] && DEMO="$D/demo_test.rs"
